@@ -34,6 +34,9 @@ impl PrintState {
         self.file_handle = 0.into();
         self.format_string = None;
         self.format_string_index = 0;
+        // a new PRINT statement starts without a pending separator,
+        // even if the previous one was interrupted by an error
+        self.should_skip_new_line = false;
     }
 
     pub fn get_printer_type(&self) -> PrinterType {
